@@ -11,10 +11,10 @@ Rec == ndJsonDeserialize(IOEnv.TRACE)
 VARIABLES l, st, last
 vars == <<l, st, last>>
 
-StOf(kind, o, dueAll) ==
+StOf(kind, own, o, dueAll) ==
   [ bal |-> o.bal, fee |-> o.fee, feeAll |-> o.feeAll, burned |-> o.burned, col |-> o.col, circ |-> o.circ,
     S |-> o.S, loans |-> o.loans, lp |-> o.lp, w |-> o.w, aw |-> o.aw, rb |-> o.rb, fees |-> o.fees,
-    tog |-> o.tog, dueAll |-> dueAll, kind |-> kind ]
+    tog |-> o.tog, dueAll |-> dueAll, kind |-> kind, own |-> own ]
 
 NoLast == [ev |-> "none"]
 
@@ -177,10 +177,10 @@ Next ==
   /\ l <= Len(Rec)
   /\ LET ev == Rec[l] IN
        IF ev.ev = "reset"
-       THEN LET t == StOf(ev.cfg.kind, ev.obs, Zero) IN
+       THEN LET t == StOf(ev.cfg.kind, ev.cfg.adv_owns, ev.obs, Zero) IN
             /\ Report(ev, Failed(ResetChecks(t)))
             /\ st' = t /\ last' = NoLast
-       ELSE LET t == StOf(st.kind, ev.obs, st.dueAll) IN
+       ELSE LET t == StOf(st.kind, st.own, ev.obs, st.dueAll) IN
             /\ Report(ev, Failed(EvChecks(ev, t)))
             \* resynchronise on the observation, except for the configured fees, which the specification owns: the triple
             \* in force is the one the last accepted update set
